@@ -35,6 +35,10 @@ TKINDS = {
     "date": {"ex": "datetime.date", "or": None, "value": "datetime.date(2020, 1, 2)", "wire": '"2020-01-02"',
              "builtin": '"2020-01-02"'},
     # only with mixin_msgpack (the format dialect always passes bytes through, so the built-in rendering never shows)
+    # types taken by handlers registered right after the overridden-(de)serialization handler: a dataclass and a
+    # SerializableType (round 6: that the customization is asked BEFORE those built-in handlers is observable here)
+    "dc": {"ex": "InnerDC", "or": None, "value": "InnerDC(1)", "wire": '{"a": 1}', "builtin": '{"a": 1}'},
+    "sertype": {"ex": "SerT", "or": None, "value": "SerT(1)", "wire": '["st", 1]', "builtin": '["st", 1]'},
     "bytes": {"ex": "bytes", "or": None, "value": 'b"ab"', "wire": 'b"ab"', "builtin": '"YWI=\\n"'},
 }
 
@@ -70,7 +74,7 @@ def gen_case(rng, entry=None, alias=None, tkind=None, present=None, shape=None) 
     entry = entry or rng.choices(list(ENTRY_LEVELS), weights=[22, 32, 22, 12, 12])[0]
     # "unhashable": Annotated alias whose metadata is a list - it cannot be a table key and the code must skip it
     alias = alias or rng.choices(["annotated", "newtype", "none", "unhashable"], weights=[55, 22, 13, 10])[0]
-    tkind = tkind or rng.choices(["list", "dict", "date"], weights=[50, 25, 25])[0]
+    tkind = tkind or rng.choices(["list", "dict", "date", "dc", "sertype"], weights=[44, 20, 20, 10, 6])[0]
     if entry == "mixin_msgpack":
         tkind = "bytes"
     av = available_slots(entry, alias, tkind)
@@ -155,7 +159,7 @@ from typing import Annotated, Any, Dict, Generic, List, NamedTuple, NewType, Opt
 from mashumaro import DataClassDictMixin, pass_through
 from mashumaro.config import BaseConfig, ADD_DIALECT_SUPPORT
 from mashumaro.dialect import Dialect
-from mashumaro.types import SerializationStrategy
+from mashumaro.types import SerializableType, SerializationStrategy
 from mashumaro.codecs.basic import BasicEncoder, BasicDecoder
 
 def S(tag):
@@ -186,6 +190,22 @@ class AStrat(SerializationStrategy, use_annotations=True):
 
 def ident(x):
     return x
+
+@dataclass
+class InnerDC(DataClassDictMixin):
+    a: int = 1
+
+class SerT(SerializableType):
+    def __init__(self, v):
+        self.v = v
+    def __eq__(self, other):
+        return type(other) is SerT and other.v == self.v
+    __hash__ = None
+    def _serialize(self):
+        return ["st", self.v]
+    @classmethod
+    def _deserialize(cls, value):
+        return cls(value[1])
 
 def errname(e):
     # a RecursionError raised while a nested class is compiled at call time arrives wrapped (InvalidFieldValue ...)
@@ -720,7 +740,7 @@ def kernel_validation(ctx: vlib.Ctx, n: int):
     if not ctx.kernel_report.get("K5", {}).get("ok"):
         ctx.correspondence(name, len(cases), -1, "K5 was not translated")
         return
-    bad, log = vlib.coq_bad_idx("c10_k5", "PyK_strat Strategies", "From VerifGen Require Import K5.", "", cases,
+    bad, log = _bad_idx("c10_k5", "PyK_strat Strategies", "From VerifGen Require Import K5.", "", cases,
                                 "fun c => res_kv_eqb (fst c) (snd c)", "res kv * res kv", shard=400,
                                 needs=["theories/Strategies.vo", "gen/K5.vo"])
     if bad is None:
@@ -805,7 +825,7 @@ Definition reg_ok (c: list (kv * kv) * list (kv * kv) * list kv * (kv * kv * kv)
     | Raise _, None => true
     | _, _ => false end end.
 """
-    bad, log = vlib.coq_bad_idx("c10_reg", "PyK_strat Strategies K5Kernel", "From VerifGen Require Import K5.", defs, cases,
+    bad, log = _bad_idx("c10_reg", "PyK_strat Strategies K5Kernel", "From VerifGen Require Import K5.", defs, cases,
                                 "reg_ok", "list (kv * kv) * list (kv * kv) * list kv * (kv * kv * kv) * option (kv * kv * kv)",
                                 shard=300, needs=["theories/K5Kernel.vo"])
     if bad is None:
@@ -915,7 +935,7 @@ def fields_validation(ctx: vlib.Ctx, n: int):
     if not ctx.kernel_report.get("K5", {}).get("ok"):
         ctx.correspondence(name, len(cases), -1, "K5 was not translated")
         return
-    bad, log = vlib.coq_bad_idx("c10_fields", "PyK_strat Strategies FieldDecl", "From VerifGen Require Import K5.", "", cases,
+    bad, log = _bad_idx("c10_fields", "PyK_strat Strategies FieldDecl", "From VerifGen Require Import K5.", "", cases,
                                 "fun c => res_kv_eqb (fst c) (snd c)", "res kv * res kv", shard=300,
                                 needs=["theories/FieldDecl.vo", "theories/Strategies.vo", "gen/K5.vo"])
     if bad is None:
@@ -1003,6 +1023,53 @@ def generate_cases(ctx: vlib.Ctx) -> list[dict]:
     return cases
 
 
+# ---------------------------------------------------------------------------------------
+# robustness on a loaded machine: a coqc that is killed (global out-of-memory killer) or runs into a timeout says
+# nothing about the property.  Only a genuine Coq error ("Error:" with a location) counts; anything else is retried.
+# ---------------------------------------------------------------------------------------
+
+def _genuine(log: str) -> bool:
+    import re as _re
+    return bool(_re.search(r"\bError:", log or "")) or "translation_failed" in (log or "")
+
+
+def _bad_idx(name, imports, gen_imports, defs, cases, okf, case_type, shard=400, needs=None, timeout=1800):
+    import time as _tm
+    bad, log = None, ""
+    for attempt in range(4):
+        bad, log = vlib.coq_bad_idx(name, imports, gen_imports, defs, cases, okf, case_type, shard=max(25, shard >> attempt),
+                                    needs=needs, timeout=timeout)
+        if bad is not None or _genuine(log):
+            break
+        _tm.sleep(15 * (attempt + 1))
+    return bad, log
+
+
+def _theorems(ctx: vlib.Ctx, target_vo: str, names: list, kernels: list):
+    """ctx.theorems with retries of a build that was killed / timed out (same obligations, same failure handling)"""
+    import time as _tm
+    v = target_vo[:-1]
+    br = None
+    for attempt in range(4):
+        br = ctx.build([target_vo], force=[v], timeout=1800)
+        if br.ok or _genuine((br.error or "") + (br.log or "")[-4000:]):
+            break
+        _tm.sleep(15 * (attempt + 1))
+    kr = ctx.kernel_report
+    kfail = [k for k in (kernels or []) if k in kr and not kr[k]["ok"]]
+    for n in names:
+        if br.ok and not kfail:
+            ctx.obligation(n, True, "accepted by coqc")
+        else:
+            why = br.error or ""
+            if kfail:
+                why = "translator failed closed for " + ",".join(f"{k}: {kr[k]['error']}" for k in kfail) + " | " + why
+            ctx.obligation(n, False, why)
+    if not br.ok or kfail:
+        ctx.not_shown(f"theorems of {target_vo}", (br.error or "") + (" kernels: " + str(kfail) if kfail else ""))
+    return br
+
+
 def self_generic_codec_defect(case: dict, d: str, obs: dict) -> bool:
     """The defect fixed by /repo 108dd9a (former finding C10/self-in-specialised-generic-codec, independent of any
     customization): codec of a specialised generic alias Box[X] whose class has a Self-typed field; the Self call
@@ -1033,7 +1100,7 @@ def run(ctx: vlib.Ctx):
     ctx.coverage["rule"] = (
         "a case = entry point (mixin to_dict/from_dict, format mixin to_fmt/from_fmt with a format dialect, DataClassMessagePackMixin to_msgpack/from_msgpack with the library's format dialect, "
         "BasicEncoder/Decoder of the dataclass, codec of the bare type) x alias kind (Annotated, NewType, none) x "
-        "field type (List[int], Dict[str,int], date) x a subset of the 2 field slots + (level x key) slots with a variant "
+        "field type (List[int], Dict[str,int], date, a nested dataclass, a SerializableType) x a subset of the 2 field slots + (level x key) slots with a variant "
         "per slot (dict both/one direction, pass_through, dict with pass_through, strategy object, use_annotations strategy); "
         "x shape (field declared in the class / inherited / re-declared over a base declaration with decoy options; type written directly or through a TypeVar of a specialised generic dataclass; observed on the top object, on a Self-typed child, or on a nested dataclass; Config own/inherited, BaseConfig subclass/plain class); "
         "+ path cases: a chain of up to 3 dataclasses (nested field, List/Dict of the nested class, Optional[Self] / Tuple[Self,...] children; each class with or without ADD_DIALECT_SUPPORT, also the called one; decoy Config tables on the classes that do not own the field) ending in a field whose type is a term over Annotated / NewType / Optional / Union / List / Dict-value / Tuple[X, ...] / NamedTuple / TypedDict / leaf (date, Decimal) of depth <= 4, slots for every type object of the term at every level, observed by value position; "
@@ -1048,27 +1115,34 @@ def run(ctx: vlib.Ctx):
         "CodeBuilder.dataclass_fields (K5): classes are abstracted to getattr(cls, '__dataclass_fields__') per MRO entry, own annotated names and cls.__dict__; x[-1:0:-1] / x[1:] are named primitives validated against CPython; that @dataclass fills __dataclass_fields__ as CPython does is not modelled (the real-class runs with inherited / re-declared fields cover it)",
         "positions below a field (Positions.v, K5PKernel.compile): translated = Registry.get, the first handler, the spec.copy of the NewType / Optional / collection-element / Union-member / tuple-item / NamedTuple-field / TypedDict-key descent sites, the class handed to get_(un)pack_method_flags at the dataclass and Self call sites, get_pack_method_flags (K8) and get_unpack_method_flags (K5P); hand-written glue (tied by the real-class path cases only) = which descent site a type takes (is_new_type / is_optional / collection / union dispatch of pack_/unpack_special_typing_primitive and *_collection), that a declined node continues with that site, the fresh ValueSpec of a dataclass field (checked textually), Tuple[Self, ...] treated like a collection element, and that the generated method runs with `dialect` = the forwarded keyword",
         "which descent site a type takes: K5D translates the if/elif chains of pack_/unpack_special_typing_primitive and pack_/unpack_collection over their own test expressions (kept as text); the outcome of each test for a concrete type is computed by the library's predicates in the harness (K5D-dispatch-vs-python) - the predicates themselves (is_new_type, is_optional, issubclass ...) and the registry order between the handlers other than special-before-collection are not modelled",
+        "RegistryWalk.compile_r (round 6): K110a translates the @register order of pack.py / unpack.py and the guard of every registered handler (try/except-return-None and suppress() as `_raises(...)` pseudo-tests, the Discriminator loop of unpack_dataclass as an any(...) pseudo-test); every position of a path case carries the valuation of ALL handler tests computed with the library's predicates on the real type object, and the walk of the whole translated registry chooses the handler (dataclass handler before the chains, the handlers between the chains declining: proved from the translation, C10_registry_dataclass / C10_registry_chains); K110a-registry-walk-vs-real-registry walks the REAL PackerRegistry / UnpackerRegistry on real specs and compares the answering handler. Still hand-modelled: the valuation of a dataclass position of a path case is computed on a stand-in dataclass with the same mixin bases (the handlers registered before the dataclass handler look only at the class), Registry.get's loop itself is matched textually, and what a handler tagged `other` / `final` does is outside the model",
         "value-dependent selection among Union members (which member packs/unpacks a value) is C11's subject: path cases always use the first member and a second member (int) that never accepts the value",
     ]
     ctx.assumptions += ["strategy values are pass_through, dicts with serialize/deserialize entries, or SerializationStrategy instances (other values are ignored by the code; covered only by the kernel validation)"]
-    br = ctx.theorems("props/C10_precedence.vo", ["C10_precedence", "C10_empty", "C10_pass_through", "C10_sym", "C10_keys"],
-                      kernels=["K5"])
-    br2 = ctx.theorems("props/C10_single.vo", ["C10_single_application"], kernels=["K5"])
-    br3 = ctx.theorems("props/C10_fields.vo", ["C10_field_decl"], kernels=["K5"])
-    br4 = ctx.theorems("props/C10_positions.vo", ["C10_positions", "C10_dialect_reaches", "C10_format_dialect_everywhere"],
-                       kernels=["K5", "K5P", "K8"])
-    br5 = ctx.theorems("props/C10_dispatch.vo", ["C10_dispatch_optional", "C10_dispatch_union", "C10_dispatch_newtype", "C10_dispatch_self",
+    br = _theorems(ctx, "props/C10_precedence.vo", ["C10_precedence", "C10_empty", "C10_pass_through", "C10_sym", "C10_keys"],
+                      ["K5"])
+    br2 = _theorems(ctx, "props/C10_single.vo", ["C10_single_application"], ["K5"])
+    br3 = _theorems(ctx, "props/C10_fields.vo", ["C10_field_decl"], ["K5"])
+    br4 = _theorems(ctx, "props/C10_positions.vo", ["C10_positions", "C10_dialect_reaches", "C10_format_dialect_everywhere"],
+                       ["K5", "K5P", "K8"])
+    br6 = _theorems(ctx, "props/C10_positions_dispatched.vo", ["C10_positions_dispatched"], ["K5", "K5P", "K8", "K5D"])
+    br5 = _theorems(ctx, "props/C10_dispatch.vo", ["C10_dispatch_optional", "C10_dispatch_union", "C10_dispatch_newtype", "C10_dispatch_self",
                                                  "C10_dispatch_named_tuple", "C10_dispatch_tuple", "C10_dispatch_list",
-                                                 "C10_dispatch_typed_dict", "C10_dispatch_mapping"], kernels=["K5D"])
-    proofs_ok = br.ok and br2.ok and br3.ok and br4.ok and br5.ok and all(ctx.kernel_report.get(k, {}).get("ok") for k in ("K5", "K5P", "K8"))
+                                                 "C10_dispatch_typed_dict", "C10_dispatch_mapping"], ["K5D"])
+    br7 = _theorems(ctx, "props/C10_registry.vo", ["C10_registry_first_answer", "C10_registry_dataclass", "C10_registry_chains",
+                                                 "C10_positions_registry"], ["K5", "K5P", "K8", "K5D", "K110a"])
+    proofs_ok = br.ok and br2.ok and br3.ok and br4.ok and br5.ok and br6.ok and br7.ok and all(ctx.kernel_report.get(k, {}).get("ok") for k in ("K5", "K5P", "K8", "K110a"))
     if proofs_ok and not ctx.quick():
         # second opinion: the independent checker on the compiled property files
-        with vlib.Lock("build"):
-            rc, out, _ = vlib.run(["timeout", "600", "coqchk", "-silent", "-o", "-Q", "theories", "Verif", "-Q", "gen", "VerifGen",
-                                   "-Q", "props", "VerifProps", "VerifProps.C10_precedence", "VerifProps.C10_single", "VerifProps.C10_fields", "VerifProps.C10_positions", "VerifProps.C10_dispatch"],
-                                  cwd=vlib.COQ, timeout=640)
+        for _attempt in range(3):     # a coqchk killed by the machine (out of memory) / timed out is retried, a verdict is not
+            with vlib.Lock("build"):
+                rc, out, _ = vlib.run(["timeout", "1500", "coqchk", "-silent", "-o", "-Q", "theories", "Verif", "-Q", "gen", "VerifGen",
+                                       "-Q", "props", "VerifProps", "VerifProps.C10_precedence", "VerifProps.C10_single", "VerifProps.C10_fields", "VerifProps.C10_positions", "VerifProps.C10_dispatch", "VerifProps.C10_positions_dispatched", "VerifProps.C10_registry"],
+                                      cwd=vlib.COQ, timeout=1560)
+            if rc == 0 or rc not in (124, 137, -9):
+                break
         ok = rc == 0 and "Axioms: <none>" in out
-        ctx.obligation("coqchk -o (C10_precedence, C10_single, C10_fields, C10_positions, C10_dispatch): no axioms", ok, out[-600:])
+        ctx.obligation("coqchk -o (C10_precedence, C10_single, C10_fields, C10_positions, C10_dispatch, C10_positions_dispatched, C10_registry): no axioms", ok, out[-600:])
         if not ok:
             ctx.not_shown("coqchk", out[-1500:])
 
@@ -1076,6 +1150,7 @@ def run(ctx: vlib.Ctx):
     registry_validation(ctx, ctx.budget(150, 1500))
     fields_validation(ctx, ctx.budget(150, 1500))
     dispatch_validation(ctx, ctx.budget(40, 300))
+    registry_walk_validation(ctx, ctx.budget(30, 250))
 
     cases = generate_cases(ctx)
     if not proofs_ok and ctx.quick():
@@ -1128,7 +1203,8 @@ def run(ctx: vlib.Ctx):
 
     # (M) observed marker lists vs the model (and the translated kernel, when it exists) inside Coq
     def compare(name, imports, gen_imports, defs, okf, needs):
-        bad, log = vlib.coq_bad_idx(name.replace("-", "_"), imports, gen_imports, defs, coq_cases, okf, "case_t", shard=500, needs=needs)
+        bad, log = _bad_idx(name.replace("-", "_"), imports, gen_imports, defs, coq_cases, okf, "case_t", shard=500, needs=needs,
+                                    timeout=1800)      # a loaded machine must not turn a slow coqc into an alarm
         if bad is None:
             ctx.correspondence(name, len(coq_cases), -1, log)
             ctx.not_shown("correspondence " + name, log)
@@ -1166,7 +1242,7 @@ def paths_part(ctx: vlib.Ctx, proofs_ok: bool):
     real classes vs K5PKernel.compile + Positions.ref_compile (in Coq) and vs the property-text oracle."""
     from harness.props import c10_paths as cp
     rng = ctx.rng
-    n = ctx.budget(400, 3000) + (0 if proofs_ok else 600)
+    n = ctx.budget(300, 2500) + (0 if proofs_ok else 600)
     cases = [cp.gen_path_case(rng) for _ in range(n)]
     srcs = [cp.build_source(c, PRELUDE) for c in cases]
     if len(cases) > 1500:
@@ -1185,7 +1261,8 @@ def paths_part(ctx: vlib.Ctx, proofs_ok: bool):
             ctx.hist("path_winner_node", "builtin" if w is None else f"node{node}")
             ctx.count(("path", case["entry"], repr(case["type"]), tuple(case["links"]), tuple(case["supports"]),
                        tuple(sorted(case["slots"].items())), d), nontrivial=bool(case["slots"]))
-            coq_cases.append(cp.coq_case(case, d, obs))
+            coq_cases.append(cp.coq_case(case, d, obs, res.get("vals")))
+            ctx.hist("path_valuations", "real classes" if "vals" in res else "stand-ins: " + res.get("vals_error", res.get("class_error", "?"))[:40])
             descr.append((case, d, obs))
             if obs != exp:
                 ctx.fail(f"position precedence: {case['entry']} {d} type={case['type']} links={case['links']} "
@@ -1197,8 +1274,8 @@ def paths_part(ctx: vlib.Ctx, proofs_ok: bool):
         ctx.sample({"path_case": {k: case[k] for k in ("entry", "type", "links", "supports", "slots")}, "dir": d, "observed": obs}, limit=8)
 
     def compare(name, imports, gen_imports, defs, needs):
-        bad, log = vlib.coq_bad_idx(name.replace("-", "_"), imports, gen_imports, defs, coq_cases, "path_ok", "path_case",
-                                    shard=400, needs=needs)
+        bad, log = _bad_idx(name.replace("-", "_"), imports, gen_imports, defs, coq_cases, "path_ok", "path_case",
+                                    shard=200, needs=needs, timeout=1800)
         if bad is None:
             ctx.correspondence(name, len(coq_cases), -1, log)
             ctx.not_shown("correspondence " + name, log)
@@ -1212,17 +1289,167 @@ def paths_part(ctx: vlib.Ctx, proofs_ok: bool):
 
     done = False
     kr = ctx.kernel_report
-    if all(kr.get(k, {}).get("ok") for k in ("K5", "K5P", "K8")):
+    if all(kr.get(k, {}).get("ok") for k in ("K5", "K5P", "K8", "K5D", "K110a")):
+        vb = vlib.coq_make(["theories/RegistryWalk.vo"])
+        if vb.ok:
+            done = compare("positions-real-classes-vs-registry-walk-compile-and-model",
+                           "PyK_strat OptProj Strategies Positions K5Kernel K5PKernel Dispatch PositionsV RegistryWalk",
+                           "From VerifGen Require Import K5 K5D K110a.", cp.COQ_DEFS + cp.valuation_defs() + cp.COQ_OK_REGISTRY,
+                           ["theories/RegistryWalk.vo"])
+        else:
+            ctx.notes.append("RegistryWalk.v does not build against the translated kernels: " + (vb.error or "")[:300])
+    if not done and all(kr.get(k, {}).get("ok") for k in ("K5", "K5P", "K8", "K5D")):
+        vb = vlib.coq_make(["theories/PositionsV.vo"])
+        if vb.ok:
+            done = compare("positions-real-classes-vs-dispatched-compile-and-model",
+                           "PyK_strat OptProj Strategies Positions K5Kernel K5PKernel Dispatch PositionsV",
+                           "From VerifGen Require Import K5 K5D.", cp.COQ_DEFS + cp.valuation_defs() + cp.COQ_OK_DISPATCHED,
+                           ["theories/PositionsV.vo"])
+        else:
+            ctx.notes.append("PositionsV.v does not build against the translated kernels: " + (vb.error or "")[:300])
+    if not done and all(kr.get(k, {}).get("ok") for k in ("K5", "K5P", "K8")):
         kb = vlib.coq_make(["theories/K5PKernel.vo"])
         if kb.ok:
             done = compare("positions-real-classes-vs-compile-and-model",
                            "PyK_strat OptProj Strategies Positions K5Kernel K5PKernel",
-                           "From VerifGen Require Import K5.", cp.COQ_DEFS + cp.COQ_OK_KERNEL, ["theories/K5PKernel.vo"])
+                           "From VerifGen Require Import K5.", cp.COQ_DEFS + cp.valuation_defs() + cp.COQ_OK_KERNEL, ["theories/K5PKernel.vo"])
         else:
             ctx.notes.append("K5PKernel.v does not build against the translated kernels: " + (kb.error or "")[:300])
     if not done:
-        compare("positions-real-classes-vs-model", "PyK_strat OptProj Strategies Positions", "", cp.COQ_DEFS + cp.COQ_OK_MODEL,
+        compare("positions-real-classes-vs-model", "PyK_strat OptProj Strategies Positions", "", cp.COQ_DEFS + cp.valuation_defs() + cp.COQ_OK_MODEL,
                 ["theories/Positions.vo"])
+
+
+def registry_walk_validation(ctx: vlib.Ctx, n_terms: int):
+    """(T) tie of K110a (+ K5D): for real type objects the REAL registries (PackerRegistry / UnpackerRegistry of the
+    library) are walked on a real ValueSpec of a real CodeBuilder - which registered handler is the first to answer -
+    and the translated walk (RegistryWalk.walk_d) under the valuation of the handlers' own tests for that type
+    (library predicates) must name the same handler."""
+    import collections
+    import datetime
+    import decimal
+    import enum
+    import fractions
+    import ipaddress
+    import pathlib
+    import typing
+    import uuid
+    from dataclasses import dataclass
+    from mashumaro import DataClassDictMixin
+    from mashumaro.core.meta.code.builder import CodeBuilder
+    from mashumaro.core.meta.helpers import get_type_origin, is_annotated
+    from mashumaro.core.meta.types.common import FieldContext, ValueSpec
+    from mashumaro.core.meta.types.pack import PackerRegistry
+    from mashumaro.core.meta.types.unpack import UnpackerRegistry
+    from mashumaro.types import GenericSerializableType, SerializableType
+    from harness.props import c10_paths as cp
+    name = "K110a-registry-walk-vs-real-registry"
+    rng = ctx.rng
+
+    @dataclass
+    class Holder(DataClassDictMixin):
+        x: int = 0
+
+    @dataclass
+    class ListDc(list, DataClassDictMixin):        # a dataclass that is also a collection: the dataclass handler is first
+        y: int = 0
+
+    class Ser1(SerializableType):
+        def _serialize(self):
+            return 1
+
+        @classmethod
+        def _deserialize(cls, v):
+            return cls()
+
+    class GSer(GenericSerializableType):
+        def _serialize(self, types):
+            return 1
+
+        @classmethod
+        def _deserialize(cls, v, types):
+            return cls()
+
+    class En(enum.Enum):
+        A = 1
+
+    class StrEn(str, enum.Enum):
+        A = "a"
+
+    class NTup(typing.NamedTuple):
+        a: int
+
+    class TDict(typing.TypedDict):
+        a: int
+    NT = typing.NewType("NT", int)
+    T = typing.TypeVar("T")
+    objs = [(repr(t)[:60], t) for t in (
+        int, float, bool, type(None), str, bytes, bytearray, datetime.date, datetime.datetime, datetime.time, datetime.timedelta,
+        datetime.timezone, uuid.UUID, decimal.Decimal, fractions.Fraction, ipaddress.IPv4Address, ipaddress.IPv6Network,
+        pathlib.Path, pathlib.PurePosixPath, typing.Pattern, En, StrEn, NTup, TDict, NT, typing.Any, typing.Final[int],
+        typing.Self, typing.Optional[typing.Self], typing.Tuple[typing.Self, ...], typing.Optional[int], typing.Union[int, str],
+        typing.List[int], typing.Dict[str, int], typing.Tuple[int, str], typing.Tuple[int, ...], typing.Set[int],
+        typing.FrozenSet[int], typing.Deque[int], collections.deque, typing.Mapping[str, int], typing.Sequence[int],
+        collections.OrderedDict, typing.ChainMap[str, int], typing.Counter[str], typing.DefaultDict[str, int], list, dict, tuple,
+        typing.Literal[1, "a"], typing.AnyStr, T, typing.Annotated[int, "m"], typing.Annotated[typing.List[int], "m"],
+        typing.List[Holder], typing.Optional[Holder], Ser1, GSer, typing.Annotated[Holder, "m"])]
+    for entry in ("mixin", "mixin_fmt", "codec_dc"):
+        objs.append((f"path-case dataclass stand-in ({entry})", cp.standin_dataclass(entry)))
+    objs += [("dataclass with the mixin", Holder), ("dataclass that is a list subclass", ListDc)]
+    for _ in range(n_terms):
+        term = cp.Term(cp.gen_type(rng))
+        ns = {}
+        exec("import datetime, decimal\nfrom typing import *\n" + "\n".join(term.defs), ns)
+        for nd in term.nodes:
+            objs.append((f"{nd['kind']} {nd['ex']}", ns[nd["ex"]]))
+
+    def real_walk(side, t):
+        reg = PackerRegistry if side == "pack" else UnpackerRegistry
+        b = CodeBuilder(Holder)
+        b.reset()
+        spec = ValueSpec(type=t, expression="value", builder=b, field_ctx=FieldContext(name="x", metadata={}))
+        for h in reg._registry:
+            try:
+                r = h(spec.copy())
+            except Exception:  # noqa: BLE001  (the handler that raises is the one that took the type)
+                return h.__name__
+            if r is not None:
+                return h.__name__
+        return ""
+
+    cases, descr = [], []
+    for what, t in objs:
+        if is_annotated(t):         # Registry.get hands the handlers the un-annotated type
+            t = get_type_origin(t)
+        for side in ("pack", "unpack"):
+            try:
+                real = real_walk(side, t)
+                vals = cp.true_tests(t, side)
+            except Exception as e:  # noqa: BLE001
+                ctx.notes.append(f"registry walk validation: {what} skipped ({type(e).__name__})")
+                continue
+            cases.append(f"({'Ser' if side == 'pack' else 'De'}, [{'; '.join(vlib.coq_str(x) for x in vals)}], {vlib.coq_str(real)})")
+            descr.append(f"{side} {what} -> real handler {real}")
+            ctx.hist("registry_walk_handler", real or "none")
+    if not all(ctx.kernel_report.get(k, {}).get("ok") for k in ("K5D", "K110a")):
+        ctx.correspondence(name, len(cases), -1, "K110a / K5D was not translated")
+        return
+    defs = """
+Definition memv (l: list string) (t: string) : bool := existsb (String.eqb t) l.
+Definition walk_ok (c: dir * list string * string) : bool :=
+  match c with (d, vals, real) => String.eqb (fst (walk_d d (memv vals))) real end.
+"""
+    bad, log = _bad_idx("c10_regwalk", "PyK_strat OptProj Strategies Positions Dispatch PositionsV RegistryWalk",
+                                "From VerifGen Require Import K5D K110a.", defs, cases, "walk_ok", "dir * list string * string",
+                                shard=150, needs=["theories/RegistryWalk.vo"])
+    if bad is None:
+        ctx.correspondence(name, len(cases), -1, log)
+        ctx.not_shown("translation validation K110a (registry walk)", log)
+    else:
+        ctx.correspondence(name, len(cases), len(bad), str([descr[i] for i in bad[:8]]))
+        if bad:
+            ctx.not_shown("translation validation K110a (registry walk)", f"cases {[descr[i] for i in bad[:8]]}")
+    ctx.count(n=len(cases))
 
 
 def dispatch_validation(ctx: vlib.Ctx, n_terms: int):
@@ -1290,7 +1517,7 @@ Definition site_eqb (a b: site) : bool :=
 Definition disp_ok (c: bool * list (string * bool) * site) : bool :=
   match c with (pk, vals, ex) => site_eqb (site_of ((if pk then dispatch_pack else dispatch_unpack) (lkv vals))) ex end.
 """
-    bad, log = vlib.coq_bad_idx("c10_dispatch", "PyK_strat OptProj Strategies Positions Dispatch", "From VerifGen Require Import K5D.",
+    bad, log = _bad_idx("c10_dispatch", "PyK_strat OptProj Strategies Positions Dispatch", "From VerifGen Require Import K5D.",
                                 defs, cases, "disp_ok", "bool * list (string * bool) * site", shard=100,
                                 needs=["theories/Dispatch.vo"])
     if bad is None:
